@@ -280,7 +280,7 @@ func c07Check(c c07Case) *vResult {
 	defer w.Close()
 	w.vShimPrimary()
 	st := w.state
-	auth, err := kmldap.New(c07Shared.urls, []string{"uid=%s,ou=people,dc=verif"}, 1, c07Shared.roots, st, logger)
+	auth, err := kmldap.New(c07Shared.urls, []string{"uid=%s,ou=people,dc=verif"}, 30 /* the library caps this to 7 s over all servers (3 s each): the most patience available; a busy machine is not an unreachable directory */, c07Shared.roots, st, logger)
 	if err != nil {
 		panic(err)
 	}
